@@ -164,7 +164,8 @@ def run_apalache(module, inv, wd, length=1, init=None, timeout=600, specdir=None
     specdir = specdir or SPEC
     out = os.path.join(wd, "apalache-out")
     shutil.rmtree(out, ignore_errors=True)
-    cmd = ["apalache-mc", "check", "--inv=" + inv, "--length=%d" % length, "--out-dir=" + out]
+    cmd = ["apalache-mc", "check", "--inv=" + inv, "--length=%d" % length, "--out-dir=" + out,
+           "--run-dir=" + os.path.join(wd, "apalache-run")]
     if init:
         cmd.append("--init=" + init)
     cmd.append(os.path.join(specdir, module + ".tla"))
@@ -177,8 +178,21 @@ def run_apalache(module, inv, wd, length=1, init=None, timeout=600, specdir=None
         return None, "timeout"
     txt = p.stdout.decode("utf-8", "replace")
     shutil.rmtree(out, ignore_errors=True)
+    shutil.rmtree(os.path.join(wd, "apalache-run"), ignore_errors=True)
     ok = "The outcome is: NoError" in txt
     return ok, txt
+
+
+def apalache_obligations(wd, invs, cov, timeout=300):
+    """thorough tier: discharge polynomial identities for ALL integers; result goes into the evidence"""
+    res = {}
+    for inv in invs:
+        ok, txt = run_apalache("apalache/Identities", inv, wd, length=0, timeout=timeout)
+        if ok is False:
+            raise MachineryError("Apalache refutes %s: %s" % (inv, txt[-1500:]))
+        res[inv] = "proved for all integers" if ok else "not discharged (timeout) - TLC's lattice check stands"
+    cov["apalache_obligations"] = res
+    return res
 
 
 # ---------------------------------------------------------------------------
